@@ -28,6 +28,9 @@ CLAIMED = {
  "C07": ("fault_enumeration", "deterministic simulation: faults on the candidate connection enumerated over byte offsets of both directions + seeded refuse/stall/black-hole + reactive 'pong at the time-out instant' coincidence; exactly-once delivery oracle on numbered messages",
          "Real eio server and client upgrading polling->websocket while numbered text/binary messages flow both ways around the swap. Fixed sweep: the candidate connection is cut at byte k of c2s and s2c (every 12th byte quick, every byte thorough: each protocol step of the upgrade). Seeded: refused, stalled past either side's upgrade time-out, black-holed; the probe pong held until the client's time-out instant +-2 ns. Sessions that stayed up: every message exactly once; never a duplicate or phantom; close reported at most once; if nobody switched, the session keeps working on polling (probe messages both ways); fault-free upgrades complete with both ends on websocket; no API call hangs.",
          "§7 C07", TB),
+ "C08": ("exploration", "deterministic simulation: real session-aware adapter behind the recording rig with simulated time (windows up to 2 min, cleaner passes), reference model = single-copy log + session table; end to end with raw peers tracking pid/offset and with the library's own reconnecting client under refuse/cut/heal faults",
+         "log: histories of namespace/room/except broadcasts and direct emits over up to 3 windows, sessions disconnecting at any point and restoring on both sides of the window (incl. exactly W), cleaner passes between (period 1 s/10 s via the verif creator, 1 min production creator), concurrent broadcasters incl. same-instant bursts; a restore within the window returns same sid/rooms and exactly the model's missed list (all, log order, none twice, never a packet the session already had), otherwise it is refused - refusal is only accepted when the session or the offset packet is older than W or unknown. raw: real sio server, a raw polling peer reconnects with pid+offset; replayed frames must decode, equal the missed list, binary attachments byte-identical, recovered socket has its rooms. goclient: the library client after cut + refused dials + heal: reconnects, Recovered() consistent, every event emitted while away reaches its handler exactly once.",
+         "§7 C08", TB),
  "C10": ("exploration", "deterministic simulation: hostile-frame fault kind from a raw protocol peer against the real server/client, process-death attribution by the supervisor; plus labelled input enumeration of the decoder",
          "A raw peer (polling POSTs or WebSocket) sends sequences of grammar-aware hostile Socket.IO frames, mixed with valid ones, to the real server while an honest real client shares it; a raw WebSocket server does the same to the real Go client. The worker process must survive, the honest connection must still complete an emit-with-ack, a new connection must be possible, the client API must return. Side run (input enumeration, kept apart): every string <= 4 (thorough 5) over the protocol alphabet and the whole corpus through Parser.Add + decode for 7 handler signature families.",
          "§7 C10", TB),
